@@ -80,6 +80,12 @@ def check(prop: str, tier: str, only: str | None = None, repo: str | None = None
         except core.AnalysisError as e:
             rep.analysis_errors.append(f"{rule_id}: {e}")
             continue
+        except Exception:
+            import traceback
+
+            traceback.print_exc()
+            rep.analysis_errors.append(f"{rule_id}: internal error in the analyser ({traceback.format_exc().strip().splitlines()[-1][:200]})")
+            continue
         if rr is None:
             continue
         for r in rr if isinstance(rr, list) else [rr]:
